@@ -622,13 +622,22 @@ impl PathIssueManager {
         // Broadcast issue
         self.issue_broadcast_tx.send((id, marker.clone())).ok();
 
-        if self.cache.contains_key(&id) {
-            // The issue is already cached and its marker is replaced below: drop the FIFO entry of
-            // the replaced marker, so that FIFO and cache stay in sync and neither can outgrow
-            // `max_entries`.
-            self.fifo_issues.retain(|(fifo_id, _)| *fifo_id != id);
-        } else if self.cache.len() >= self.max_entries {
-            self.pop_front();
+        // Make room for a new issue id. A re-reported issue leaves a stale entry (older timestamp)
+        // in the FIFO; popping such an entry does not free a cache slot, so keep popping.
+        if !self.cache.contains_key(&id) {
+            while self.cache.len() >= self.max_entries && !self.fifo_issues.is_empty() {
+                self.pop_front();
+            }
+        }
+
+        // Stale FIFO entries are otherwise only dropped when they reach the front: bound them.
+        if self.fifo_issues.len() >= 2 * self.max_entries.max(1) {
+            let cache = &self.cache;
+            self.fifo_issues.retain(|(fifo_id, timestamp)| {
+                cache
+                    .get(fifo_id)
+                    .is_some_and(|marker| marker.timestamp == *timestamp)
+            });
         }
 
         // Insert issue
